@@ -155,6 +155,63 @@ impl C11 {
         }
     }
 
+    /// The column after an INPUT reply is 0 however the prompt came about: shown by the program, or shown again by
+    /// CONT after a break at the prompt, also when the direct line that continued had left the cursor mid-line.
+    fn input_break_case(&self, rng: &mut Rng, ctx: &mut Ctx) {
+        let w = "ABCDEFGHIJKLMNOPQRSTUVWXYZ".chars().take(rng.usize(20)).collect::<String>();
+        let k = rng.range(0, 30) as usize;
+        let lines = [format!("10 PRINT \"{}\";", w), "20 INPUT A".to_string(), format!("30 PRINT TAB({});\"X\";POS(0);A", k), "40 PRINT 1,2".to_string()];
+        let mut script: Vec<String> = lines.to_vec();
+        let mut s = Session::new();
+        s.drain(8);
+        for l in &lines {
+            s.command(l, 16);
+        }
+        s.enter("RUN");
+        script.push("RUN".into());
+        if !matches!(s.drain(64), Stop::Input(..)) {
+            ctx.violation("no-stop", "print:input-break:no-prompt", "no prompt", &script.join("\n"));
+            return;
+        }
+        let rounds = rng.usize(3);
+        for _ in 0..rounds {
+            s.interrupt();
+            script.push("<break at the prompt>".into());
+            s.drain(64);
+            let v = "abcdefghijklmnop".chars().take(rng.usize(12)).collect::<String>();
+            let c = match rng.usize(4) {
+                0 => "CONT".to_string(),
+                1 => format!("PRINT \"{}\";:CONT", v),
+                2 => format!("PRINT \"{}\",:CONT", v),
+                _ => format!("PRINT TAB({});:CONT", 3 + v.len()),
+            };
+            script.push(c.clone());
+            s.enter(&c);
+            if !matches!(s.drain(64), Stop::Input(..)) {
+                ctx.violation("no-stop", "print:input-break:no-prompt-after-cont", "CONT at the prompt did not show the prompt again", &script.join("\n"));
+                return;
+            }
+        }
+        script.push("<reply 7>".into());
+        let text = script.join("\n");
+        mon::journal(&text);
+        let mark = s.mark();
+        s.enter("7");
+        let st = s.drain(64);
+        let got = transcript(s.events_since(mark), Norm::STD);
+        let want = format!("{}X {}  7 \n 1 {} 2 \nREADY.\n<STOPPED>", " ".repeat(k), k + 1, " ".repeat(11));
+        ctx.eval(&text, rounds > 0);
+        ctx.count("input_break_sessions");
+        if st != Stop::Stopped || got != want {
+            ctx.violation(
+                "layout-differs",
+                "print:layout:after-input-reply",
+                &format!("{}\n printed {:?}\n expected {:?}", text, got, want),
+                &text,
+            );
+        }
+    }
+
     fn layout_case(&self, rng: &mut Rng, ctx: &mut Ctx) {
         let mut col = 0usize;
         let mut out = String::new();
@@ -210,6 +267,13 @@ impl C11 {
                         text.push_str(&format!("SPC({})", k));
                         emit(&" ".repeat(k as usize), &mut col, &mut out);
                         kinds.insert("SPC");
+                    }
+                    7 if rng.chance(1, 3) => {
+                        // a line feed in the middle of one string value
+                        let (a, b) = (*rng.pick(&["TOTAL", "", "é→", "xy"]), *rng.pick(&["SUB", "", "ß", "0123456789"]));
+                        text.push_str(&format!("\"{}\"+CHR$(10)+\"{}\"", a, b));
+                        emit(&format!("{}\n{}", a, b), &mut col, &mut out);
+                        kinds.insert("newline-inside-string");
                     }
                     7 if rng.chance(1, 2) => {
                         // a line feed inside the output: the column starts again
@@ -386,7 +450,9 @@ impl Prop for C11 {
     }
 
     fn run_case(&mut self, idx: u64, rng: &mut Rng, ctx: &mut Ctx) {
-        if idx % 2 == 0 {
+        if idx % 16 == 7 {
+            self.input_break_case(rng, ctx)
+        } else if idx % 2 == 0 {
             self.number_case(rng, ctx)
         } else {
             self.layout_case(rng, ctx)
